@@ -268,6 +268,7 @@ func recorded(c *Case, i int, set attribute.Set, upto int) []float64 {
 // to otel.Handle and the series is missing instead of being shown at schema
 // 8": exactly the missing series / family of an instrument aggregated with
 // MaxScale > 8 for a point the SDK holds at scale > 8, and the handled error.
+// (no longer registered: the defect is repaired)
 func knownScaleAbove8(c Case, v vk.Violation) bool {
 	switch v.Kind {
 	case "native_histogram_missing":
@@ -285,3 +286,5 @@ func knownScaleAbove8(c Case, v vk.Violation) bool {
 	}
 	return false
 }
+
+var _ = knownScaleAbove8
